@@ -519,6 +519,7 @@ def main(ctx) -> int:
         from harness import kernels
 
         kernels.check_sym(ctx, files={'trajectories/builders/legacy.py'})
+        kernels.check_loops(ctx, files={'trajectories/builders/legacy.py'}, flights=6 if ctx.tier == 'quick' else 60)
     finally:
         Config.reset()
     return ctx.finish(RULE, TRUSTED, ASSUME)
